@@ -1321,6 +1321,35 @@ Proof.
   intros Hd ls HL. apply (lines_noesc c simple _ x ls (Hne Hd) HL).
 Qed.
 
+(* ------------------------------------------------------------------ 4f. the two registered styles *)
+(* "error" is one of pastel's own styles: every formatter clikit builds (ANSI or plain) resolves it, whatever the style
+   set; "b" resolves once a style with that tag is in the set *)
+Lemma aset_keeps {V} k (v : V) n (d : list (str * V)) : (exists w, aget str_eqb n d = Some w) -> exists w, aget str_eqb n (aset str_eqb k v d) = Some w.
+Proof. intros (w & H). rewrite StrLemmas.sget_sset. destruct (str_eqb n k); eexists; [reflexivity|exact H]. Qed.
+Lemma register_keeps n : forall l sty sty', register l sty = Ok sty' ->
+  (exists w, aget str_eqb n sty = Some w) -> exists w, aget str_eqb n sty' = Some w.
+Proof.
+  induction l as [|[t c] r IH]; intros sty sty' H Hn; cbn [register] in H; [injection H as <-; exact Hn|].
+  destruct (convert c) as [p|e]; cbn [bind] in H; [|discriminate]. apply (IH _ _ H). apply aset_keeps, Hn.
+Qed.
+Lemma registered_resolvable sty tag : py_lower tag = tag -> (exists w, aget str_eqb tag sty = Some w) -> resolvable sty tag.
+Proof. intros E (w & H). exists w. unfold resolve. now rewrite E, H. Qed.
+Theorem new_formatter_error k set f : new_formatter k set = Ok f -> k <> FNull -> resolvable (f_styles f) st_error.
+Proof.
+  intros H Hk. apply registered_resolvable; [reflexivity|]. unfold new_formatter in H.
+  assert ((do ss <- style_set set []; do sty <- register ss pastel_defaults; Ok {| f_kind := k; f_styles := sty; f_stack := [] |}) = Ok f) as H'
+    by (destruct k; [exact H|exact H|congruence]). clear H.
+  destruct (style_set set []) as [ss|e]; cbn [bind] in H'; [|discriminate].
+  destruct (register ss pastel_defaults) as [sty|e] eqn:ER; cbn [bind] in H'; [|discriminate]. injection H' as <-. cbn [f_styles].
+  apply (register_keeps st_error ss pastel_defaults sty ER). eexists. reflexivity.
+Qed.
+Theorem add_style_b f c f' : f_kind f <> FNull -> c_tag c = Some st_b -> add_style f c = Ok f' -> resolvable (f_styles f') st_b.
+Proof.
+  intros Hk Ht H. apply registered_resolvable; [reflexivity|]. unfold add_style in H.
+  destruct (f_kind f) eqn:EK; [| |congruence]; (destruct (convert c) as [p|e]; cbn [bind] in H; [|discriminate]); rewrite Ht in H;
+    injection H as <-; cbn [f_styles]; rewrite StrLemmas.sget_sset; cbn; eexists; reflexivity.
+Qed.
+
 (* ------------------------------------------------------------------ 6. the hypotheses are satisfiable *)
 Module RenderExamples.
 Import LiteralLemmas.Examples.
@@ -1444,6 +1473,7 @@ Print Assumptions render_never_fails.
 Print Assumptions render_lines_ok.
 Print Assumptions lines_noesc.
 Print Assumptions render_never_fails_inputs.
+Print Assumptions new_formatter_error.
 Print Assumptions render_plain_bytes_l.
 Print Assumptions simple_bytes.
 Print Assumptions full_bytes.
